@@ -10,7 +10,7 @@ import copy
 
 from .facts import Body
 
-MAX_DEPTH = 4
+MAX_DEPTH = 6
 MAX_BLOCKS = 4000
 
 
@@ -85,16 +85,24 @@ def _shift_block(b, off_l, off_b):
     return nb
 
 
-def inlined(facts, body, depth=MAX_DEPTH, skip=None):
-    """Body with crate-local plain function calls inlined (cached on the body)."""
-    cached = getattr(body, "_inlined", None)
-    if cached is not None:
-        return cached
+def inlined(facts, body, depth=MAX_DEPTH, skip=None, tag=None, sugar=False):
+    """Body with crate-local plain function calls inlined (cached on the body per `tag`; a `skip`
+    predicate must come with its own tag). With sugar=True the closure-taking combinators of Option /
+    Result / bool and iterator pipelines are expanded into explicit control flow as well
+    (engine.desugar)."""
+    tag = (tag or (getattr(skip, "__name__", "skip") if skip else "all")) + ("+sugar" if sugar else "")
+    cache = body.__dict__.setdefault("_inlined_cache", {})
+    if tag in cache:
+        return cache[tag]
     d = {k: v for k, v in body.d.items() if k not in ("locals", "blocks")}
     locals_ = [dict(l) for l in body.locals]
     blocks = [copy.deepcopy(b) for b in body.blocks]
     origin = [(body.id, i) for i in range(len(blocks))]
     work = [(i, 0, (body.id,)) for i in range(len(blocks))]
+    sg = None
+    if sugar:
+        from .desugar import Sugar
+        sg = Sugar(facts, locals_, blocks, origin, work)
     while work:
         bi, dep, stack = work.pop()
         if len(blocks) > MAX_BLOCKS:
@@ -102,6 +110,8 @@ def inlined(facts, body, depth=MAX_DEPTH, skip=None):
         b = blocks[bi]
         t = b["term"]
         if b["cleanup"] or not t or t["k"] != "call" or dep >= depth:
+            continue
+        if sg is not None and (sg.expand_simple(bi, dep, stack) or sg.expand_iter(bi, dep, stack)):
             continue
         target = t.get("res") if not t.get("virtual") else None
         cb = facts.body(target or "")
@@ -138,14 +148,20 @@ def inlined(facts, body, depth=MAX_DEPTH, skip=None):
         for ai, a in enumerate(t["args"]):
             b["stmts"].append({"k": "assign", "lhs": {"l": off_l + 1 + ai, "p": []}, "rv": {"k": "use", "op": a}, "span": span, "inl_arg": cb.id})
         b["term"] = {"k": "goto", "t": off_b, "span": span, "inl_call": cb.id, "inl_site": t}
+    if sg is not None:
+        from .desugar import thread_jumps
+        for _ in range(8):
+            if not thread_jumps(blocks):
+                break
     d["locals"] = locals_
     d["blocks"] = blocks
     d["id"] = body.id
     nbdy = Body(d, body.unit)
-    nbdy.cache_id = body.id + "#inlined"
+    nbdy.cache_id = body.id + "#inlined:" + tag
     nbdy.origin = origin
     nbdy.is_inlined = True
+    nbdy.sugar_expanded = list(sg.expanded) if sg is not None else []
     nbdy.base = body
     # parameters of inlined callees are ordinary locals here
-    body._inlined = nbdy
+    cache[tag] = nbdy
     return nbdy
